@@ -382,11 +382,12 @@ func (o *structFieldsCBOR) FromCBOR(dm cbor.DecMode, data []byte) error {
 }
 
 func (o *structFieldsCBOR) unmarshalKeyValue(dm cbor.DecMode, rest []byte) ([]byte, error) {
+	var rawKey cbor.RawMessage
 	var key int
 	var val cbor.RawMessage
 	var err error
 
-	rest, err = dm.UnmarshalFirst(rest, &key)
+	rest, err = dm.UnmarshalFirst(rest, &rawKey)
 	if err != nil {
 		return rest, fmt.Errorf("could not unmarshal key: %w", err)
 	}
@@ -394,6 +395,13 @@ func (o *structFieldsCBOR) unmarshalKeyValue(dm cbor.DecMode, rest []byte) ([]by
 	rest, err = dm.UnmarshalFirst(rest, &val)
 	if err != nil {
 		return rest, fmt.Errorf("could not unmarshal value: %w", err)
+	}
+
+	if err := dm.Unmarshal(rawKey, &key); err != nil {
+		// A label that is not an integer (e.g. a text label, which CWT
+		// allows) cannot belong to one of the keyasint fields: ignore
+		// the entry, like any other entry the struct has no field for.
+		return rest, nil
 	}
 
 	if err := o.Add(key, val); err != nil {
